@@ -376,6 +376,45 @@ theorem C11_quo_guard_index : quoGuardIndex = [
   "x/operator/keeper/slash.go:Keeper.SlashAssets:slashUSDValue.Quo(stakingInfo.StakingAndWaitUnbonding) | quoGuard_SlashAssets (stakingInfo_StakingAndWaitUnbonding : Int) (err_isNil : Bool) | divisor=stakingInfo.StakingAndWaitUnbonding",
   "x/oracle/keeper/common/types.go:BigIntList.Median:new(big.Int).Div(new(big.Int).Add(b[l/2], b[l/2-1]), big.NewInt(2)) | quoGuard_Median | divisor=new(big.Int).Add(b[l/2], b[l/2-1])"] := by rfl
 
+/-! ### nil / non-positive price values (nil-dereference kind)
+
+sdkmath.Int is a pointer wrapper: `NewIntFromString` of a non-numeric string yields a nil Int, and any
+arithmetic on it (CalculateUSDValue: `assetAmount.Mul(price)`) dereferences nil — in BeginBlock on the slash
+path, at epoch ends on the voting-power path. The two oracle getters are the only producers of prices;
+`oraclePriceLiterals` lists every `Price{…}` they build with its Value, what it is returned with and its
+dominating guards. Two lemmas about the regenerated guard kernels show that the only literals whose Value
+is a parsed variable are reached with a non-nil, positive value; the table tie pins everything else
+(default-price constructors, and the one `Price{}` that is returned together with a non-RoundNotFound
+error, which every consumer propagates). -/
+
+theorem C11_price_value_guard_specified (v : Int) (vNil : Bool)
+    (h : priceValueGuard_GetSpecifiedAssetsPrice v vNil = true) : vNil = false ∧ 0 < v := by
+  cases vNil <;> simp [priceValueGuard_GetSpecifiedAssetsPrice] at h ⊢
+  omega
+
+theorem C11_price_value_guard_multiple (v : Int) (vNil : Bool)
+    (h : priceValueGuard_GetMultipleAssetsPrices v vNil = true) : vNil = false ∧ 0 < v := by
+  cases vNil <;> simp [priceValueGuard_GetMultipleAssetsPrices] at h ⊢
+  omega
+
+theorem C11_oracle_price_literals : oraclePriceLiterals = [
+  "Keeper.GetSpecifiedAssetsPrice|Value=sdkmath.NewInt(types.DefaultPriceValue)|with=nil|assetID == assetstypes.ExocoreAssetID",
+  "Keeper.GetSpecifiedAssetsPrice|Value=unset|with=types.ErrGetPriceAssetNotFound.Wrapf|not(assetID == assetstypes.ExocoreAssetID) ; tokenID == 0",
+  "Keeper.GetSpecifiedAssetsPrice|Value=sdkmath.NewInt(types.DefaultPriceValue)|with=types.ErrGetPriceRoundNotFound.Wrapf|not(assetID == assetstypes.ExocoreAssetID) ; not(tokenID == 0) ; !found",
+  "Keeper.GetSpecifiedAssetsPrice|Value=sdkmath.NewInt(types.DefaultPriceValue)|with=types.ErrGetPriceRoundNotFound.Wrapf|not(assetID == assetstypes.ExocoreAssetID) ; not(tokenID == 0) ; not(!found) ; v.IsNil() || v.LTE(sdkmath.ZeroInt())",
+  "Keeper.GetSpecifiedAssetsPrice|Value=v|with=nil|not(assetID == assetstypes.ExocoreAssetID) ; not(tokenID == 0) ; not(!found) ; not(v.IsNil() || v.LTE(sdkmath.ZeroInt()))",
+  "Keeper.GetMultipleAssetsPrices|Value=sdkmath.NewInt(types.DefaultPriceValue)|with=assigned|assetID == assetstypes.ExocoreAssetID",
+  "Keeper.GetMultipleAssetsPrices|Value=sdkmath.NewInt(types.DefaultPriceValue)|with=assigned|not(assetID == assetstypes.ExocoreAssetID) ; not(tokenID == 0) ; !found",
+  "Keeper.GetMultipleAssetsPrices|Value=sdkmath.NewInt(types.DefaultPriceValue)|with=assigned|not(assetID == assetstypes.ExocoreAssetID) ; not(tokenID == 0) ; not(!found) ; v.IsNil() || v.LTE(sdkmath.ZeroInt())",
+  "Keeper.GetMultipleAssetsPrices|Value=v|with=assigned|not(assetID == assetstypes.ExocoreAssetID) ; not(tokenID == 0) ; not(!found) ; not(v.IsNil() || v.LTE(sdkmath.ZeroInt()))"] := by rfl
+
+/-- who consumes the getters (all treat ErrGetPriceRoundNotFound as "default price" and return any other error) -/
+theorem C11_price_consumers : priceConsumersOnBlockPaths = [
+  "GetMultipleAssetsPrices <- x/operator/keeper/abci.go:Keeper.UpdateVotingPower",
+  "GetMultipleAssetsPrices <- x/operator/keeper/usd_value.go:Keeper.CalculateUSDValueForStaker",
+  "GetMultipleAssetsPrices <- x/operator/keeper/usd_value.go:Keeper.GetOrCalculateOperatorUSDValues",
+  "GetSpecifiedAssetsPrice <- x/operator/keeper/usd_value.go:Keeper.CalculateUSDValueForOperator"] := by rfl
+
 /-! ### the guard lemmas' models are the regenerated Go kernels -/
 
 /-- the divisor `C11_guard_usdValue_divisor` is about is the one the regenerated CalculateUSDValue divides by -/
